@@ -50,6 +50,18 @@ pub(super) fn reconstruct_blocks_from_verified_blobs(
 
     // match rollup blobs to header blobs
     for rollup in rollup_blobs {
+        // A Celestia namespace is not access controlled: anybody can post another rollup's
+        // (valid) blob into this rollup's namespace. Only blobs that claim to be for the
+        // configured rollup may be attached to a header.
+        if rollup.rollup_id() != rollup_id {
+            info!(
+                block_hash = %rollup.sequencer_block_hash(),
+                rollup_id_in_blob = %rollup.rollup_id(),
+                "dropping rollup blob because it is for another rollup",
+            );
+            continue;
+        }
+
         if let Some(header_blob) =
             remove_header_blob_matching_rollup_blob(&mut header_blobs, &rollup)
         {
